@@ -53,8 +53,9 @@ def state_functions(P: Project) -> List[Tuple[FunctionInfo, str]]:
 class ReplaySlice:
     """CFG of ``f`` (and of its nested closures) under the assumption PRESENT."""
 
-    def __init__(self, P: Project, f: FunctionInfo, S: str):
-        self.P, self.f, self.S = P, f, S
+    def __init__(self, P: Project, f: FunctionInfo, S: str, present: bool = True):
+        self.P, self.f, self.S, self.present = P, f, S, present
+        self.isnone: Set[str] = set()
         fn = f.node
         self.notnone: Set[str] = set()
         self.consts: Dict[str, object] = {}
@@ -68,6 +69,10 @@ class ReplaySlice:
                     if all(self._notnone_expr(v2) for n2, v2, _ in assignments(fn, nested=True) if n2 == name):
                         self.notnone.add(name)
                         changed = True
+        if not present:
+            # TRAINING slice: no key is recorded yet — names bound (only) from S.get(k) are None
+            self.isnone = set(self.notnone)
+            self.notnone = set()
         # constant flags: iterate pruning until stable
         for _ in range(4):
             cfg = CFG(fn, prune=self.prune)
@@ -128,9 +133,11 @@ class ReplaySlice:
         if isinstance(t, ast.Compare) and len(t.ops) == 1:
             op, r = t.ops[0], t.comparators[0]
             if isinstance(op, (ast.In, ast.NotIn)) and self._is_S(r):
-                val = isinstance(op, ast.In)
+                val = isinstance(op, ast.In) if self.present else isinstance(op, ast.NotIn)
             elif isinstance(op, (ast.Is, ast.IsNot)) and is_const(r, None) and isinstance(t.left, ast.Name) and t.left.id in self.notnone:
                 val = isinstance(op, ast.IsNot)
+            elif isinstance(op, (ast.Is, ast.IsNot)) and is_const(r, None) and isinstance(t.left, ast.Name) and t.left.id in self.isnone:
+                val = isinstance(op, ast.Is)
         elif isinstance(t, ast.Name) and t.id in self.consts:
             val = bool(self.consts[t.id])
         elif isinstance(t, ast.BoolOp):
@@ -459,4 +466,95 @@ def r5(ctx):
                   ctx.construct(m, text="reduce"), f"__reduce_ex__ returns `{norm(r[0].value) if r else None}`")
 
 
-RULES = [("C04.R1", r1), ("C04.R2", r2), ("C04.R3", r3), ("C04.R4", r4), ("C04.R5", r5)]
+
+def r6(ctx):
+    """Row-wise transformations of the data are applied identically when fitting and when replaying: an assignment that
+    re-binds a data-derived value reaching the result must be reachable in the TRAINING slice (no key recorded) exactly
+    when it is reachable in the REPLAY slice (all keys recorded)."""
+    P = ctx.project
+    n = 0
+    for f, S in state_functions(P):
+        if f.qualname.endswith(".wrapper") or f.qualname.endswith(".wrapped"):
+            continue
+        fn = f.node
+        rep, trn = ReplaySlice(P, f, S, True), ReplaySlice(P, f, S, False)
+        rid, tid = {id(s) for s in rep.stmts}, {id(s) for s in trn.stmts}
+        data_params = [p for p in param_names(fn) if not p.startswith("*") and p not in STATE_NAMES and not p.startswith("_")][:1]
+        asg = assignments(fn, nested=True)
+        data = set(data_params)
+        changed = True
+        while changed:
+            changed = False
+            for nm, v, _ in asg:
+                if nm not in data and mentions(v, data) and not _reads_state(v, S):
+                    data.add(nm)
+                    changed = True
+        # names that are (aliases of) recorded state are not "data"
+        state_alias = {nm for nm, v, st in asg if _reads_state(v, S)}
+        for st in walk_no_nested(fn):
+            if isinstance(st, ast.Assign):
+                for t in st.targets:
+                    if isinstance(t, ast.Subscript) and isinstance(t.value, ast.Name) and t.value.id == S and isinstance(st.value, ast.Name):
+                        state_alias.add(st.value.id)
+                if len(st.targets) > 1:  # _state[k] = name = value
+                    if any(isinstance(t, ast.Subscript) and isinstance(t.value, ast.Name) and t.value.id == S for t in st.targets):
+                        state_alias |= {t.id for t in st.targets if isinstance(t, ast.Name)}
+        for nm, v, st in asg:
+            if not isinstance(st, (ast.Assign, ast.AugAssign, ast.AnnAssign)) or nm not in data or nm in state_alias:
+                continue
+            in_r, in_t = id(st) in rid, id(st) in tid
+            if in_r == in_t:
+                continue
+            # a fit-time form paired with a replay-time form of the same re-binding (discover levels / apply recorded levels) is the
+            # intended shape: look for a counterpart binding of the same name reachable in the opposite slice, in another arm of an enclosing `if`
+            paired = False
+            par, child = P.parent(st), st
+            while par is not None and par is not fn and not paired:
+                if isinstance(par, ast.If):
+                    arm_other = par.orelse if any(child is x for x in par.body) else par.body
+                    for x in arm_other:
+                        for y in ast.walk(x):
+                            if isinstance(y, (ast.Assign, ast.AnnAssign, ast.AugAssign)) and nm in {t.id for t in ast.walk(y) if isinstance(t, ast.Name) and isinstance(t.ctx, ast.Store)}:
+                                if (id(y) in rid) != in_r or (id(y) in tid) != in_t:
+                                    paired = True
+                child, par = par, P.parent(par)
+            if paired:
+                continue
+            n += 1
+            ctx.look()
+            # does the re-bound value reach the result (not through the state)?
+            flow = {nm}
+            item_stores = []
+            for x in ast.walk(fn):
+                if isinstance(x, (ast.Assign, ast.AugAssign)):
+                    for t in (x.targets if isinstance(x, ast.Assign) else [x.target]):
+                        b = t
+                        while isinstance(b, (ast.Subscript, ast.Attribute)):
+                            b = b.value
+                        if isinstance(t, ast.Subscript) and isinstance(b, ast.Name) and b.id != S:
+                            item_stores.append((b.id, x.value))
+            changed = True
+            while changed:
+                changed = False
+                for n2, v2, s2 in asg:
+                    if n2 not in flow and n2 not in state_alias and mentions(v2, flow) and not _reads_state(v2, S):
+                        flow.add(n2)
+                        changed = True
+                for base, v2 in item_stores:
+                    if base not in flow and base not in state_alias and mentions(v2, flow):
+                        flow.add(base)
+                        changed = True
+            reaches = any(isinstance(r, ast.Return) and r.value is not None and mentions(r.value, flow) for r in rep.stmts + trn.stmts)
+            ctx.check(not reaches, "C04.R6", f"{f.qualname.replace('formulaic.', '')}: `{stmt_text(st, 50)}` is applied both when fitting and when replaying",
+                      f.module.line(st), ctx.construct(f, text=f"fit/replay asymmetry: {stmt_text(st, 70)}"),
+                      f"`{stmt_text(st, 90)}` transforms the data only {'when replaying' if in_r else 'when fitting (no state recorded yet)'}: the same row is encoded "
+                      f"differently the second time (e.g. out-of-range values are clipped at fit time but not on replay)")
+    ctx.notes.append(f"C04.R6: {n} data re-bindings are slice-dependent (all confined to state estimation)")
+    ctx.ok("C04.R6", f"data re-bindings reaching the result are slice-independent in all state functions ({n} slice-dependent ones feed the state only)", "formulaic/transforms")
+
+
+def _reads_state(v: ast.AST, S: str) -> bool:
+    return any(isinstance(x, ast.Name) and x.id == S for x in ast.walk(v))
+
+
+RULES = [("C04.R1", r1), ("C04.R2", r2), ("C04.R3", r3), ("C04.R4", r4), ("C04.R5", r5), ("C04.R6", r6)]
